@@ -214,7 +214,7 @@ def real_runs(rep, rng, tier):
         states = []
 
         def on_step(solver, state, kw, res):
-            states.append((np.array(res.psi, copy=True), float(res.dt)))
+            states.append((np.array(res.psi, copy=True), float(res.dt), np.array(res.mu, copy=True)))
 
         with tempfile.TemporaryDirectory(prefix="pyt_c05_") as td:
             opts = runs.make_options(td, solve_time=T, dt_init=2e-3, dt_max=1e-2, adaptive=adaptive, save_every=k)
@@ -230,7 +230,7 @@ def real_runs(rep, rng, tier):
                     s = int(g.attrs["step"])
                     psi = np.array(g["psi"])
                     want = solver.psi_init if s == 0 else (states[s - 1][0] if s - 1 < len(states) else None)
-                    t_want = sum(d for _, d in states[:s])
+                    t_want = sum(st_[1] for st_ in states[:s])
                     case = {"save_every": k, "solve_time": T, "adaptive": adaptive, "frame_step": s}
                     if want is None or not np.array_equal(psi, want):
                         rep.violation("frame content is not the state after exactly `step` solver updates", case)
@@ -244,8 +244,32 @@ def real_runs(rep, rng, tier):
             if len(tms) != len(ft) or np.max(np.abs(tms - np.array(ft))) > 1e-12:
                 rep.violation("Solution.times differ from the recorded frame times",
                               {"save_every": k, "solve_time": T, "times": tms.tolist()[:6], "frame_times": ft[:6]})
-            if len(sol.dynamics.dt) != int(max(int(x) for x in [s]) if False else len(sol.dynamics.dt)):
-                pass
+            # per-step records: one per update, in order - dt, and the potential / phase at the probe points of the state
+            # that update produced
+            dyn = sol.dynamics
+            pidx = np.asarray(dev.probe_point_indices)
+            case = {"save_every": k, "solve_time": T, "adaptive": adaptive, "updates": nupd}
+            if len(dyn.dt) != nupd or not np.array_equal(np.asarray(dyn.dt), np.array([st_[1] for st_ in states])):
+                rep.violation("per-step dt records are not the time steps of the updates, once each, in order", case)
+            elif dyn.mu is None or dyn.theta is None:
+                rep.violation("probe records missing although the device has probe points", case)
+            else:
+                mu_want = np.stack([st_[2][pidx] for st_ in states], axis=1)
+                th_want = np.stack([np.angle(st_[0][pidx]) for st_ in states], axis=1)
+                if np.asarray(dyn.mu).shape != mu_want.shape or not np.array_equal(np.asarray(dyn.mu), mu_want):
+                    rep.violation("probe potential records are not mu at the probe points after each update, in order", case)
+                if np.asarray(dyn.theta).shape != th_want.shape or np.max(np.abs(np.asarray(dyn.theta) - th_want)) > 1e-12:
+                    rep.violation("probe phase records are not arg(psi) at the probe points after each update, in order", case)
+                if not np.array_equal(dyn.voltage(), mu_want[0] - mu_want[1]) or \
+                        np.max(np.abs(dyn.phase_difference() - (th_want[0] - th_want[1]))) > 1e-12:
+                    rep.violation("DynamicsData.voltage / phase_difference are not the differences of the probe records", case)
+                tt = np.cumsum([st_[1] for st_ in states])
+                if np.max(np.abs(np.asarray(dyn.time) - tt)) > 1e-12:
+                    rep.violation("DynamicsData.time is not the running sum of the recorded time steps", case)
+                lo, hi = float(tt[len(tt) // 3]), float(tt[(2 * len(tt)) // 3])
+                want_idx = np.where((tt >= lo) & (tt <= hi))[0]
+                if not np.array_equal(dyn.time_slice(lo, hi), want_idx):
+                    rep.violation("DynamicsData.time_slice does not select the steps inside the time window", case)
         rep.count(1)
         rep.nontrivial(("real", k, adaptive))
 
